@@ -54,12 +54,28 @@ def PSet.add (s : PSet) (p : Param) : PSet :=
 /-- the comma expression `(p₁, p₂, …, pₙ)` (also `Parameter::operator ParametersSet` for n = 1) -/
 def PSet.ofList (l : List Param) : PSet := l.foldl PSet.add PSet.empty
 
-/-- `merge`: inserts only names that are absent -/
-def PSet.merge (s : PSet) (pg : PSet) : PSet :=
-  { s with pmap := pg.pmap.foldl (fun m kv => if (lookup kv.1 m).isSome then m else m ++ [kv]) s.pmap }
-
 def errS (c : ErrClass) : Err := ⟨.stichwort, c⟩
 def errT (c : ErrClass) : Err := ⟨.tapkee, c⟩
+
+/-- the loop of `merge`: a name that is absent is inserted; a name that is present must hold a value of the same
+    C++ type as the parameter merged in (`hasSameTypeAs`: the type policies are the same object), otherwise
+    `wrong_parameter_type_error` (repository commit 6b3b662) -/
+def mergeInto (m : List (Kw × Val)) : List (Kw × Val) → Except Err (List (Kw × Val))
+  | [] => .ok m
+  | kv :: t =>
+    match lookup kv.1 m with
+    | none => mergeInto (m ++ [kv]) t
+    | some v => if v.ty = kv.2.ty then mergeInto m t else .error (errS .wrong_parameter_type_error)
+
+/-- `merge` -/
+def PSet.merge (s : PSet) (pg : PSet) : Except Err PSet :=
+  match mergeInto s.pmap pg.pmap with
+  | .ok m => .ok { s with pmap := m }
+  | .error e => .error e
+
+/-- what `merge` yields when it does not throw: only absent names are inserted -/
+def PSet.mergeRaw (s : PSet) (pg : PSet) : PSet :=
+  { s with pmap := pg.pmap.foldl (fun m kv => if (lookup kv.1 m).isSome then m else m ++ [kv]) s.pmap }
 
 /-- `check()` -/
 def PSet.check (s : PSet) : Except Err Unit :=
@@ -223,7 +239,7 @@ structure FState where
 
 def runStep (r : Request) (st : FState) : FrontStep → M FState
   | .checkDuplicates => M.bind (M.lift st.ps.check) fun _ => M.pure st
-  | .mergeDefaults => M.pure { st with ps := st.ps.merge defaults }
+  | .mergeDefaults => M.bind (M.lift (st.ps.merge defaults)) fun ps' => M.pure { st with ps := ps' }
   | .echo => M.pure { st with echo := some st.ps.pmap }
   | .read kw =>
     M.bind (M.lift (match st.ps.get kw with
@@ -282,14 +298,17 @@ def frontEnd (r : Request) : Result :=
   | (.error (.reached cb), c) => ⟨.reached cb, c⟩
   | (.error (.threw e), c) => ⟨.threw (mapErr e rethrow), c⟩
 
-/-- what the debug-level echo shows: the merged map (if `check()` passed) -/
+/-- what the debug-level echo shows: the merged map (if `check()` and `merge()` passed) -/
 def echoOf (r : Request) : Option (List (Kw × Val)) :=
   match (PSet.ofList r.kws).check with
-  | .ok _ => some ((PSet.ofList r.kws).merge defaults).pmap
+  | .ok _ =>
+    match (PSet.ofList r.kws).merge defaults with
+    | .ok ps => some ps.pmap
+    | .error _ => none
   | .error _ => none
 
-/-- the merged parameter set the method sees -/
-def merged (r : Request) : PSet := (PSet.ofList r.kws).merge defaults
+/-- the merged parameter set the method sees (when `merge` does not throw) -/
+def merged (r : Request) : PSet := (PSet.ofList r.kws).mergeRaw defaults
 
 /-! ## declared and mentioned callbacks (C13) -/
 
